@@ -24,17 +24,8 @@ Proof.
   intros s Hs Hk. specialize (H s Hs). rewrite Hk, orb_false_r in H. exact H.
 Qed.
 
-Lemma unordered_witness : exists s, In s map_sites /\ site_ordered s = false.
+Lemma all_ordered_forall : forall s, In s map_sites -> site_ordered s = true.
 Proof.
-  exists (A, "validateBuildOptions", "options.ExtensionToLoader", 0)%string.
-  split; [|vm_compute; reflexivity].
-  assert (H : existsb (site_eqb (A, "validateBuildOptions", "options.ExtensionToLoader", 0)%string) map_sites = true)
-    by (vm_compute; reflexivity).
-  apply existsb_exists in H as (x & Hx & E).
-  assert (x = (A, "validateBuildOptions", "options.ExtensionToLoader", 0)%string).
-  { destruct x as [[[f g] e] n]. unfold site_eqb in E.
-    apply andb_true_iff in E as [E E4]. apply andb_true_iff in E as [E E3]. apply andb_true_iff in E as [E1 E2].
-    apply String.eqb_eq in E1. apply String.eqb_eq in E2. apply String.eqb_eq in E3. apply Nat.eqb_eq in E4.
-    subst. reflexivity. }
-  now subst.
+  assert (H : all_ordered = true) by (vm_compute; reflexivity).
+  unfold all_ordered in H. rewrite forallb_forall in H. exact H.
 Qed.
